@@ -13,7 +13,7 @@
 EXTENDS Universes, TLC, Json
 
 \* ---- universe -------------------------------------------------------------
-R9Names == <<cA, <<97, 47, 98>>, <<97, 126, 98>>, <<126, 49>>, <<48>>, <<49>>, <<>>, <<97, 32, 98>>, <<47>>, <<126>>, <<126, 48>>, <<233>>>>
+R9Names == <<cA, <<97, 47, 98>>, <<97, 126, 98>>, <<126, 49>>, <<48>>, <<49>>, <<>>, <<97, 32, 98>>, <<47>>, <<126>>, <<126, 48>>, <<233>>, <<127>>, <<133, 97>>>>
 R9NamesT == R9Names \o << <<39>>, <<97, 39, 98>>, <<92>>, <<34>>, <<10>>, <<45, 49>>, <<91, 48, 93>> >>
 R9N == IF Thorough THEN R9NamesT ELSE R9Names
 R9Leaf == <<JInt(1), JStr(cA), JArr(<<JInt(1), JInt(2)>>), JObj(<<cA>>, <<JInt(1)>>)>>
@@ -25,6 +25,7 @@ R9Docs == FlattenSeq([i \in 1..Len(R9N) |->
                 JObj(<<<<48>>, <<49>>>>, <<JArr(<<JInt(5), JInt(6)>>), JInt(7)>>),
                 JObj(<<cA, <<97, 47, 98>>>>, <<JObj(<<cB>>, <<JInt(2)>>), JInt(1)>>),          \* "a/b" next to a.b
                 JObj(<<<<97, 47, 98>>, <<97, 126, 49, 98>>>>, <<JInt(2), JInt(1)>>),          \* "a~1b" next to "a/b"
+                JObj(<<<<97, 32, 98>>, <<97, 98>>, <<32, 97, 98>>>>, <<JInt(1), JInt(2), JInt(3)>>),   \* "a b", "ab", " ab": differ only by blanks (sorted: " ab" first)
                 JInt(5), JArr(<<>>) >>
 R9Vals == <<JStr(<<87>>), JArr(<<>>), JObj(<<cN>>, <<JInt(1)>>)>>
 \* locations that do not exist in d: missing name, index = len, name step on an array, index step on an object
